@@ -74,6 +74,8 @@ def main():
     ap.add_argument("-j", type=int, default=3)
     ap.add_argument("--seeded", action="store_true", help="also run seeded/*/patch.diff against the properties in their meta.json")
     ap.add_argument("--seeded-only", action="store_true")
+    ap.add_argument("--patch", default="", help="ad-hoc: a patch file to apply; use with --props")
+    ap.add_argument("--props", default="")
     ap.add_argument("--out", default="", help="write a markdown table of the results to this file")
     a = ap.parse_args()
     only = set(x for x in a.only.split(",") if x)
@@ -90,6 +92,8 @@ def main():
             name = "seeded/" + os.path.basename(os.path.dirname(meta))
             if props and a.name in name:
                 ms.append({"name": name, "props": props, "patch": os.path.join(os.path.dirname(meta), "patch.diff")})
+    if a.patch:
+        ms = [{"name": "patch:" + a.patch, "props": a.props.split(","), "patch": a.patch}]
     print(f"{len(ms)} mutants")
     surv = 0
     rows = []
